@@ -8,6 +8,7 @@ import Oracle.FsPathEngine
 import Oracle.TokenEngine
 import Oracle.CcbEngine
 import Oracle.CancelEngine
+import Oracle.PrivacyEngine
 
 def main (args : List String) : IO UInt32 := do
   match args with
@@ -21,6 +22,7 @@ def main (args : List String) : IO UInt32 := do
   | ["token"] => Oracle.TokenEngine.run; return 0
   | ["ccb"] => Oracle.CcbEngine.run; return 0
   | ["cancel"] => Oracle.CancelEngine.run; return 0
+  | ["privacy"] => Oracle.PrivacyEngine.run; return 0
   | _ =>
     IO.eprintln "usage: cedar_oracle <engine>   (one op per stdin line, one reply per line)"
     return 2
